@@ -568,7 +568,7 @@ double Find_Root(std::function<double(double)> func, double xLeft, double xRight
 		for(int i = 0; i < Max_Iterations; i++)
 		{
 			// Mid point
-			double x3 = (x1 + x2) / 2.0;
+			double x3 = 0.5 * x1 + 0.5 * x2;	// (x1 + x2) overflows for two ends of equal sign beyond DBL_MAX/2
 
 			double f3 = func(x3);
 			// New point. The update only depends on the ratios of the three function values, which are normalized such that their products can neither overflow nor underflow.
